@@ -71,6 +71,7 @@ def linear_room_oracle(fba, ref, closed):
 def check_model(net, bounds, P, stats, rich=False, origin=None):
     import numpy as np
     from cobra.flux_analysis import moma, pfba, room
+    from cobra.flux_analysis.parsimonious import optimize_minimal_flux
 
     mets, rxns = families.as_data(net, bounds)
     ids = [r[0] for r in rxns]
@@ -138,20 +139,24 @@ def check_model(net, bounds, P, stats, rich=False, origin=None):
         ubs0 = np.array([r[3] for r in rxns], dtype=float)
         # ---- pFBA ----------------------------------------------------------------------
         for frac in ((1.0, 0.5, 0.0) if direction == "max" else (1.0,)):
-            for form in (("model",), ("dict",), ("subset",)) if frac == 1.0 else (("model",),):
+            # (the forms ending in _alias go through the deprecated entry point optimize_minimal_flux, by keyword)
+            for form in ((("model",), ("dict",), ("subset",), ("dict_alias",), ("subset_alias",)) if frac == 1.0
+                         else (("model",), ("model_alias",)) if frac == 0.5 else (("model",),)):
                 case = mk("pfba", fraction=frac, form=form[0])
+                call = optimize_minimal_flux if form[0].endswith("_alias") else pfba
+                form = (form[0].replace("_alias", ""),)
                 stT, T, _ = oracles.min_total_flux(fba, frac)
                 stats["evaluations"] = stats.get("evaluations", 0) + 1
                 try:
                     with warnings.catch_warnings():
                         warnings.simplefilter("ignore")
                         if form[0] == "model":
-                            sol = pfba(model, fraction_of_optimum=frac)
+                            sol = call(model, fraction_of_optimum=frac)
                         elif form[0] == "dict":
-                            sol = pfba(model, fraction_of_optimum=frac,
+                            sol = call(model, fraction_of_optimum=frac,
                                        objective={model.reactions.get_by_id(r): cc for r, cc in obj.items()})
                         else:
-                            sol = pfba(model, fraction_of_optimum=frac, reactions=[model.reactions.get_by_id(ids[-1])])
+                            sol = call(model, fraction_of_optimum=frac, reactions=[model.reactions.get_by_id(ids[-1])])
                 except Exception as exc:
                     bad(case, "raised on a feasible model", repr(exc))
                     continue
